@@ -68,6 +68,7 @@ def touches (g : Graph) (t : Nat) : Ev → Prop
   | .rej u => u = t
   | .cmd u _ => u = t
   | .done u _ => u = t
+  | .hacc u => u = t
   | .ret u i _ => u = t ∨ g.role t = .child u i ∨
       ∃ y, g.role t = .tbody y ∧ (g.tryd y).owner = u ∧ (g.tryd y).idx = i
   | _ => False
@@ -245,6 +246,11 @@ theorem TI.frame {g : Graph} {t : Nat} {pc : PC} {tr : List Ev} {ce : Bool} {tgv
 abbrev TIs (g : Graph) (s : St) (u : Nat) : Prop :=
   TI g u (s.pc u) s.tr (s.cerr (g.ctx u)) (s.tg (tryOf g u))
 
+/-- the submission of handler `h` of try `y` is visible in the trace: it was accepted (`hacc`, and the
+task exists), or some submission of this try was refused (`hrej`; the try goroutine then stopped) -/
+def subSeen (g : Graph) (s : St) (y h : Nat) : Prop :=
+  ((s.pc h).accepted = true ∧ Ev.hacc h ∈ s.tr) ∨ ∃ h' ∈ g.handlers y, Ev.hrej h' ∈ s.tr
+
 structure YI (g : Graph) (s : St) (y : Nat) : Prop where
   started : s.tg y ≠ .idle → Ev.ret (g.tryd y).owner (g.tryd y).idx true ∈ s.tr
   bodyAcc : s.tg y = .waitBody → (s.pc (g.tryd y).body).accepted = true
@@ -257,6 +263,11 @@ structure YI (g : Graph) (s : St) (y : Nat) : Prop where
               (s.pc h).accepted = true ∨ s.cerr (g.ctx (g.tryd y).owner) = true
   succAcc : 5 ≤ (s.tg y).rank → Ev.done (g.tryd y).body true ∈ s.tr → ∀ h, (g.tryd y).succ = some h →
               (s.pc h).accepted = true ∨ s.cerr (g.ctx (g.tryd y).owner) = true
+  finSub  : 3 ≤ (s.tg y).rank → ∀ h, (g.tryd y).fin = some h → subSeen g s y h
+  failSub : 4 ≤ (s.tg y).rank → Ev.done (g.tryd y).body false ∈ s.tr → ∀ h, (g.tryd y).fail = some h →
+              subSeen g s y h
+  succSub : 5 ≤ (s.tg y).rank → Ev.done (g.tryd y).body true ∈ s.tr → ∀ h, (g.tryd y).succ = some h →
+              subSeen g s y h
   active  : s.tg y ≠ .idle → s.tg y ≠ .done → s.pc (g.tryd y).owner = .afterCmd (g.tryd y).idx
   started' : Ev.ret (g.tryd y).owner (g.tryd y).idx true ∈ s.tr → s.tg y ≠ .idle
 
@@ -298,5 +309,6 @@ structure Inv (g : Graph) (s : St) : Prop where
   ok : TraceOk g s.tr
   tgr : ∀ y, s.tg y ≠ .idle → y < g.tries.length
   i3 : I3 g s
+  ha : ∀ h, Ev.hacc h ∈ s.tr → (s.pc h).accepted = true
 
 end Goat.Pipeline
